@@ -33,34 +33,44 @@ type chanState struct {
 	rwait  int // receivers parked on this channel (plain receives and select clauses)
 }
 
-var chans [maxChans]chanState
+// The table holds pointers, so that a *chanState stays valid when the table grows
+// (a run may create thousands of channels: one per call of a function that uses one).
+var chans = make([]*chanState, maxChans)
 var nchans int
 
 //go:norace
 func resetChans() {
 	for i := 0; i < nchans; i++ {
-		for j := range chans[i].q {
-			chans[i].q[j] = chanItem{}
+		st := chans[i]
+		for j := range st.q {
+			st.q[j] = chanItem{}
 		}
-		chans[i].q = chans[i].q[:0]
-		chans[i].id = nil
-		chans[i].closed = false
-		chans[i].rwait = 0
+		st.q = st.q[:0]
+		st.id = nil
+		st.closed = false
+		st.rwait = 0
 	}
 	nchans = 0
 }
 
 //go:norace
 func chanLookup(id unsafe.Pointer) *chanState {
-	for i := 0; i < nchans; i++ {
+	for i := nchans - 1; i >= 0; i-- { // the youngest channels are the likeliest
 		if chans[i].id == id {
-			return &chans[i]
+			return chans[i]
 		}
 	}
-	if nchans >= maxChans {
-		fatal(VHarnessBug, "more than maxChans simulated channels in one run")
+	if nchans >= len(chans) {
+		bigger := make([]*chanState, 2*len(chans))
+		for i := 0; i < nchans; i++ {
+			bigger[i] = chans[i]
+		}
+		chans = bigger
 	}
-	st := &chans[nchans]
+	if chans[nchans] == nil {
+		chans[nchans] = &chanState{}
+	}
+	st := chans[nchans]
 	nchans++
 	st.id = id
 	st.closed = false
@@ -324,6 +334,7 @@ func SelectReady(hasDefault bool, cases ...SelCase) int {
 		panic(plainError("simrt: select outside a simulated run"))
 	}
 	Yield(YChanRecv, 0)
+	registered := false
 	for {
 		var ready [16]int
 		n := 0
@@ -333,22 +344,30 @@ func SelectReady(hasDefault bool, cases ...SelCase) int {
 				n++
 			}
 		}
-		if n > 0 {
-			return ready[selChoice(n)]
-		}
-		if hasDefault {
+		if n > 0 || hasDefault {
+			if registered {
+				for _, c := range cases {
+					selAdjWait(c, -1)
+				}
+			}
+			if n > 0 {
+				return ready[selChoice(n)]
+			}
 			return -1
 		}
-		// park as a waiting receiver on every receive clause's channel, so that a
-		// sender on a rendezvous channel (plain or selecting) can proceed
-		for _, c := range cases {
-			selAdjWait(c, +1)
+		// Park as a waiting receiver on every receive clause's channel, so that a
+		// sender on a rendezvous channel (plain or selecting) can proceed. The
+		// registration is made once and announced once: a selector that is woken
+		// and finds nothing ready parks again silently (two parked selectors waking
+		// each other in turn would never end - met with benign patch ben9_3).
+		if !registered {
+			registered = true
+			for _, c := range cases {
+				selAdjWait(c, +1)
+			}
+			Unblock(&selKey)
 		}
-		Unblock(&selKey)
 		Block(&selKey)
-		for _, c := range cases {
-			selAdjWait(c, -1)
-		}
 	}
 }
 
